@@ -62,8 +62,9 @@ type cacheSim struct {
 	tr   *tracer
 	c    *piececache.Cache
 	ver  atomic.Int64
-	max  int
-	keys int
+	max   int
+	keys  int
+	short bool
 }
 
 func keyName(k int) string { return fmt.Sprint("piece-", k) }
@@ -85,8 +86,13 @@ func (s *cacheSim) snap() {
 		ents = append(ents, []int{keyNum(e.Key), sz, ver})
 	}
 	sort.Slice(ents, func(i, j int) bool { return ents[i][0] < ents[j][0] || (ents[i][0] == ents[j][0] && ents[i][2] < ents[j][2]) })
-	size := s.c.Size()
-	s.tr.emit(ev{"op": "Snap", "size": size / 4, "rem": size % 4, "len": s.c.Len(), "ents": ents, "heapok": sn.HeapOK && sn.Size == size,
+	// The exported gauges are separate calls; with a short TTL an expiry timer may run between them, so
+	// they are only compared with the locked projection when nothing can change the cache concurrently.
+	size, n := sn.Size, sn.Items
+	if !s.short {
+		size, n = s.c.Size(), s.c.Len()
+	}
+	s.tr.emit(ev{"op": "Snap", "size": size / 4, "rem": size % 4, "len": n, "ents": ents, "heapok": sn.HeapOK && sn.Size == size,
 		"timersok": sn.TimersOK, "active": s.c.LoadsActive(), "waiting": s.c.LoadsWaiting()})
 }
 
@@ -142,7 +148,7 @@ func cacheSeqRun(tr *tracer, idx int, seed int64) {
 	}
 	nkeys := 2 + rng.Intn(3)
 	tr.emit(ev{"op": "Init", "sub": "cache", "idx": idx, "max": max, "d": d, "par": par, "ng": 1, "shortttl": short})
-	s := &cacheSim{tr: tr, c: piececache.New(int64(4*max+d), ttl, par), max: max, keys: nkeys}
+	s := &cacheSim{tr: tr, c: piececache.New(int64(4*max+d), ttl, par), max: max, keys: nkeys, short: short}
 	for step := 0; step < *fOps; step++ {
 		switch k := rng.Intn(20); {
 		case k == 0:
